@@ -543,9 +543,8 @@ class RegionGeomToO:
 
     def find_lat_long_along_traj(self, dist_along_traj):
         """Will have to work out the geometry for this."""
-        return self.detLat * np.ones_like(dist_along_traj), self.detLong * np.ones_like(
-            dist_along_traj
-        )
+        ones = np.ones_like(dist_along_traj, dtype=np.float64)
+        return self.detLat * ones, self.detLong * ones
 
     def np_save(self, mcintfactor, numEvPass):
         np.savez(
